@@ -57,6 +57,7 @@ SetConfig(c)    == Do("setconfig", c, None, None, "ok", [st EXCEPT !.cfg = c])
 RefOp == \/ \E n \in Names, h \in Hashes : SetRef(n, h)
          \/ \E p \in SymOK : SetRef(p[1], Sym(p[2]))
          \/ \E n \in Names, h \in Hashes, o \in Hashes : CAS(n, h, o)
+         \/ \E p \in SymOK, o \in Hashes : CAS(p[1], Sym(p[2]), o)     \* symbolic value installed over a hash
          \/ \E n \in Names \ NoRemove : RemoveRef(n)
 
 Next ==
